@@ -30,5 +30,7 @@ for _p in ("C02", "C04", "C07", "C17"):
     PROPS[_p]["units"] = PROPS[_p]["units"] + ["context"]
 PROPS["C15"] = {"units": ["context", "main", "generate"], "level": "proof", "assumptions": []}
 PROPS["C16"] = {"units": ["context", "main", "generate"], "level": "proof", "assumptions": []}
+for _p in ("C04", "C15", "C16", "C17", "C18"):
+    PROPS[_p]["units"] = PROPS[_p]["units"] + ["finder"]
 for _k in ("C15", "C16"):
     NOT_APPLICABLE.pop(_k, None)
